@@ -1511,6 +1511,16 @@ def dbl_fields(x: float) -> str:
     return f'X={neg}:{n}:{k} R={cps(repr(x))}'
 
 
+def boundary_integers():
+    """integers at the borders that matter for a cast: ±0, ±1, around ±2^53 (exact integers of a double), around the overflow
+    threshold of xs:double ±(2^1024 − 2^970) and of xs:float, and far beyond (both signs)"""
+    out = [0, 1, -1]
+    for b in (2 ** 24, 2 ** 53, 2 ** 63, 2 ** 64, 2 ** 128 - 2 ** 103, 2 ** 1024 - 2 ** 970, 2 ** 1024, 10 ** 309, 10 ** 400):
+        for d in (-1, 0, 1):
+            out += [b + d, -(b + d)]
+    return out
+
+
 def gen_atom(rng):
     """-> (kind, python value for the XPath variable, request fields)"""
     from elementpath.datatypes import UntypedAtomic
@@ -1530,7 +1540,7 @@ def gen_atom(rng):
         except ValueError:
             v = rng.randint(-300, 300)
         if rng.random() < 0.05:
-            v = rng.choice([2 ** 1024 - 2 ** 970, 2 ** 1024 - 2 ** 970 - 1, -(2 ** 1024), 10 ** 400])
+            v = rng.choice(boundary_integers())
         return 'int', v, f'K=int I={v}'
     if r < 0.78:
         s = g_decimal(rng)
@@ -1583,6 +1593,12 @@ def cast_cases(run: Run, impl: Impl) -> None:
     for s in ['-0.0', '1.50', '100.00', '-128.9', '0.999']:
         for t in CAST_TARGETS:
             seeds.append((('dec', Decimal(s), f'K=dec S={cps(s)}'), t))
+    for v_ in boundary_integers():
+        for t in ('double', 'float', 'decimal', 'integer', 'string', 'untypedAtomic', 'boolean'):
+            seeds.append((('int', v_, f'K=int I={v_}'), t))
+    for tname, (lo_, hi_) in sorted(BOUNDS_PY.items()):
+        for v_ in [b + d for b in (lo_, hi_) if b is not None for d in (-1, 0, 1)]:
+            seeds.append((('int', v_, f'K=int I={v_}'), tname))
     cases = seeds + [(gen_atom(rng), rng.choice(CAST_TARGETS)) for _ in range(n)]
     versions = [('1.0', '10'), ('1.1', '11')]
     lines = []
@@ -1612,6 +1628,11 @@ def cast_cases(run: Run, impl: Impl) -> None:
                 results[f'cast{pn}'] = impl.xpath(pn, v, f'$s cast as xs:{t}', {'s': val})
                 results[f'fn{pn}'] = impl.xpath(pn, v, f'xs:{t}($s)', {'s': val})
                 results[f'castable{pn}'] = impl.xpath(pn, v, f'$s castable as xs:{t}', {'s': val})
+                if t == 'double' and kind in ('int', 'dec'):
+                    # the other roads from a number to the same double: through the string form, fn:number, a literal-free sum
+                    results[f'fn-of-string{pn}'] = impl.xpath(pn, v, 'xs:double(xs:string($s))', {'s': val})
+                    results[f'number{pn}'] = impl.xpath(pn, v, 'number($s)', {'s': val})
+                    results[f'item#1{pn}'] = impl.xpath('31', v, 'xs:double#1($s)', {'s': val})
             for name, (k, r) in results.items():
                 if name.startswith('castable'):
                     got = ('1' if r is True else '0' if r is False else f'?{r!r}') if k == 'ok' else r
@@ -1633,9 +1654,13 @@ def cast_cases(run: Run, impl: Impl) -> None:
                             if kind == 'int':
                                 src = str(int(val))     # F&O: through the string form (INF beyond the range)
                             ref = float_ref(t, src) if not (kind == 'dbl') else float_ref(t, repr(val))
+                            if kind == 'dec' and val == 0:
+                                ref = 0.0          # xs:decimal has no negative zero: through the canonical form '0'
+                            # interim finding F10nz (repair on fix-c10-8): decimal source, value zero, negative sign, float/double target
+                            tags_nz = ['F10nz'] if (kind == 'dec' and val == 0 and val.is_signed() and fhex(r) == fhex(-0.0)) else []
                             if fhex(ref) != fhex(r):
                                 run.disagree(Disagreement(dict(case, path=name), impl=fhex(r), model=fhex(ref), spec=fhex(ref),
-                                                          what='cast-double-value', site='get_double / Float.__new__'))
+                                                          what='cast-double-value', site='get_double / Float.__new__', tags=tags_nz))
                             if mm == 'ok:dbl:num':
                                 raw = norm = 'ok:dbl:num'
                         except (ValueError, OverflowError):
@@ -2048,7 +2073,7 @@ def mutable_types_scan() -> dict:
 CAST_TYPES = ['untypedAtomic', 'string', 'float', 'double', 'decimal', 'integer', 'duration', 'yearMonthDuration',
               'dayTimeDuration', 'dateTime', 'time', 'date', 'gYearMonth', 'gYear', 'gMonthDay', 'gDay', 'gMonth', 'boolean',
               'base64Binary', 'hexBinary', 'anyURI', 'QName']          # the order of the recommendation (= XSD.castTypes)
-_STR_PROBES = ['1', 'abc', 'true', '2000-01-01', 'P1D', 'xs:a', '0F', '12:00:00', '2000-01-01T00:00:00', '2000', '2000-01',
+_STR_PROBES = ['1', 'abc', 'true', '2000-01-01', 'P1D', 'xs:a', '0F', '12:00:00', '2000-01-01T00:00:00', '2000-01-01T00:00:00Z', '2000', '2000-01',
                '--01', '--01-01', '---01', 'P1Y', 'PT1S', '%zz']
 CAST_PROBES = {       # fixed source values per type: every value class that decides between Y and M
     'untypedAtomic': [f"xs:untypedAtomic('{x}')" for x in _STR_PROBES],
@@ -2056,13 +2081,14 @@ CAST_PROBES = {       # fixed source values per type: every value class that dec
     'float': ["xs:float('1.5')", "xs:float('NaN')", "xs:float('INF')", "xs:float('0')"],
     'double': ['1.5e0', "xs:double('NaN')", "xs:double('-INF')", '0e0', '1e300'],
     'decimal': ['1.5', '0.0', '-7.0', '12345678901234567890.5'],
-    'integer': ['0', '1', '-7', '123456789012345678901234567890'],
+    'integer': ['0', '1', '-7', '123456789012345678901234567890', '-' + '9' * 400, '9' * 400, '9007199254740993', '-9007199254740993'],
     'duration': ["xs:duration('P1Y2M3DT4H')", "xs:duration('PT0S')"],
     'yearMonthDuration': ["xs:yearMonthDuration('P14M')"], 'dayTimeDuration': ["xs:dayTimeDuration('PT36H')"],
     'dateTime': ["xs:dateTime('2000-01-01T12:00:00Z')", "xs:dateTime('1999-12-31T23:59:59.5')"],
-    'time': ["xs:time('12:00:00')"], 'date': ["xs:date('2000-02-29Z')"], 'gYearMonth': ["xs:gYearMonth('2000-02')"],
-    'gYear': ["xs:gYear('2000')"], 'gMonthDay': ["xs:gMonthDay('--02-29')"], 'gDay': ["xs:gDay('---31')"],
-    'gMonth': ["xs:gMonth('--02')"], 'boolean': ['true()', 'false()'],
+    'time': ["xs:time('12:00:00')", "xs:time('23:59:59.5+05:30')"], 'date': ["xs:date('2000-02-29Z')", "xs:date('2000-02-29')"],
+    'gYearMonth': ["xs:gYearMonth('2000-02')", "xs:gYearMonth('2000-02-05:00')"], 'gYear': ["xs:gYear('2000')", "xs:gYear('2000Z')"],
+    'gMonthDay': ["xs:gMonthDay('--02-29')", "xs:gMonthDay('--02-29Z')"], 'gDay': ["xs:gDay('---31')", "xs:gDay('---31+14:00')"],
+    'gMonth': ["xs:gMonth('--02')", "xs:gMonth('--02Z')"], 'boolean': ['true()', 'false()'],
     'base64Binary': ["xs:base64Binary('QUJD')", "xs:base64Binary('')"], 'hexBinary': ["xs:hexBinary('0F')", "xs:hexBinary('')"],
     'anyURI': ["xs:anyURI('http://a/b')", "xs:anyURI('')"], 'QName': ["xs:QName('xs:a')", "xs:QName('local')"],
     # derived types (= XSD.derivedTypes, same order)
@@ -2107,6 +2133,12 @@ def cast_table_cases(run: Run, impl: Impl) -> None:
     expression; any error from the constructor function, F10l); Y — accepted; M — never a type error; and for a pair with a
     derived type: permitted iff the pair of table ancestors is not N"""
     st = run.stats
+    try:      # the class itself: a dateTimeStamp cannot exist without a timezone
+        impl.types['dateTimeStamp'](2000, 1, 1)
+        run.disagree(Disagreement({'python': 'DateTimeStamp(2000, 1, 1)'}, impl='ok', spec='ERR:V', what='dateTimeStamp-without-timezone',
+                                  site='datetime.py DateTimeStamp.__init__'))
+    except ValueError:
+        pass
     pairs = [(a, b) for a in ALL_CAST_TYPES for b in ALL_CAST_TYPES]
     answers = run.driver('C10', [f'op=castv A={a} B={b}' for a, b in pairs])
     for (a, b), ans in zip(pairs, answers):
@@ -2133,6 +2165,28 @@ def cast_table_cases(run: Run, impl: Impl) -> None:
             if got != want:
                 run.disagree(Disagreement(case, impl=repr(got), spec=repr(want), what='cast-vs-casting-table',
                                           site='_xpath2_operators.py cast / _xpath2_constructors.py'))
+            # the result of a successful cast is a value of the target type: its string form is a literal of T that re-reads
+            # as T to the same value (for xs:dateTimeStamp this is "the timezone is there")
+            for form, (k_, r_) in (('cast', (kc, rc)), ('ctor', (kf, rf))):
+                if k_ != 'ok' or isinstance(r_, list):
+                    continue
+                ks, rs = impl.xpath('31', '1.1', 'xs:string($v)', {'v': r_})
+                text = rs if ks == 'ok' else None
+                k2, r2 = impl.xpath('31', '1.1', f'xs:{b}($t)', {'t': text}) if isinstance(text, str) else ('err', rs)
+                st.count('cast-table:result-reparsed')
+                if k2 == 'ok':
+                    try:     # the same value (a subtype instance may come back as its base type) with the same string form
+                        same = (r2 == r_) or (isinstance(r2, float) and isinstance(r_, float) and math.isnan(r2) and math.isnan(r_))
+                        k3, r3 = impl.xpath('31', '1.1', 'xs:string($v)', {'v': r2})
+                        back = 'ok:same' if same and r3 == text else 'ok:' + value_text(r2)
+                    except Exception as e:
+                        back = 'ERR:OTHER:' + type(e).__name__
+                else:
+                    back = r2
+                if back != 'ok:same':
+                    run.disagree(Disagreement(dict(case, form=form, result=value_text(r_), result_string=text),
+                                              impl=back, spec='ok:same', what='cast-result-string-reparses',
+                                              site=f'datatypes {b}: the value produced by a cast'))
 
 
 def translate_tables(run: Run) -> dict:
